@@ -113,6 +113,60 @@ fn chain_of<T: Scalar>(outer: &Spec, inner: &Spec, alpha: &[f64], depth: usize, 
     );
 }
 
+/// Long inexact histories for a chain: every cycle over non-representable letters, 48 updates,
+/// chain vs decomposition bit-exactly at every step. Integer letters make every running sum
+/// exact, which hides anything that only changes *when* a view re-derives its state.
+fn chain_cycles(outer: &Spec, inner: &Spec, st: &mut Stats, sink: &Sink) {
+    let chain_spec = outer.with_leaf(inner);
+    let letters = [0.1, 0.7, -3.3];
+    let built = guard(|| (build::<f64>(&chain_spec), build::<f64>(inner), build::<f64>(outer)));
+    if built.is_err() {
+        st.skipped_configs += 1;
+        return;
+    }
+    st.configs += 1;
+    for cyc in crate::explore::cycles(&letters, 3) {
+        let (mut chain, mut a, mut b) = (build::<f64>(&chain_spec), build::<f64>(inner), build::<f64>(outer));
+        let len = 48;
+        let hist: Vec<f64> = (0..len).map(|i| cyc[i % cyc.len()]).collect();
+        for i in 0..len {
+            let x = hist[i];
+            let rc = guard(|| {
+                chain.update(x);
+                chain.last()
+            });
+            let rd = guard(|| {
+                a.update(x);
+                if let Some(y) = a.last() {
+                    b.update(y);
+                }
+                b.last()
+            });
+            st.transitions += 3;
+            st.oracle_evals += 1;
+            match (rc, rd) {
+                (Ok(c), Ok(d)) => {
+                    if !opt_same(c, d) {
+                        sink.push(Violation::new("C01", &chain_spec, "chain-vs-decomposition", "f64", &hist[..=i], format!("the chain reports {} but stand-alone {} fed into stand-alone {} reports {}", opt_key(c), inner.name(), outer.name(), opt_key(d))));
+                        return;
+                    }
+                }
+                (Err(_), Err(_)) => break,
+                (Err(m), Ok(d)) => {
+                    sink.push(Violation::new("C01", &chain_spec, "panic-mismatch", "f64", &hist[..=i], format!("the chain panicked ({}) where the decomposition reports {}", m, opt_key(d))));
+                    return;
+                }
+                (Ok(c), Err(m)) => {
+                    sink.push(Violation::new("C01", &chain_spec, "panic-mismatch", "f64", &hist[..=i], format!("the decomposition panicked ({}) where the chain reports {}", m, opt_key(c))));
+                    return;
+                }
+            }
+        }
+        st.states += len as u64;
+        st.traces += 1;
+    }
+}
+
 fn binary_comb<T: Scalar>(kind: Kind, a: &Spec, b: &Spec, alpha: &[f64], depth: usize, st: &mut Stats, sink: &Sink) {
     let spec = Spec::bin(kind, a.clone(), b.clone());
     let (probed, nprobes) = spec.with_probes();
@@ -213,6 +267,20 @@ pub fn run(ctx: &Ctx) -> CheckOutput {
                 }));
             }
         }
+    }
+    // every two-level chain again on long histories of non-representable values
+    for e in unary_catalogue() {
+        jobs.push(Box::new(move || {
+            let mut st = Stats::default();
+            let sink = Sink::new();
+            for (on, inn) in if quick { vec![(2usize, 2usize), (3, 2)] } else { vec![(2, 2), (3, 2), (2, 3), (5, 3), (9, 4)] } {
+                let outer = mk(e.kind, on, Spec::echo());
+                for inner in inners(inn) {
+                    chain_cycles(&outer, &inner, &mut st, &sink);
+                }
+            }
+            JobOut { stats: st, viols: sink.take(), samples: vec![json!({"explorer":"LONG","outer":format!("{:?}", e.kind),"inner":"every catalogue view","driver":"every cycle over {0.1, 0.7, -3.3} of period<=3, 48 updates"})] }
+        }));
     }
     // three-level chains C(B(A(leaf))), decomposed as stand-alone A feeding the two-level chain
     // C(B(Echo)): a middle view that reports a value before it was delivered anything is consumed
